@@ -79,6 +79,12 @@ CLAIMS = {
         'note': 'Trusts the bison semantics stated in yrsa/rules/C07.py ASSUMPTIONS, the .y reader yrsa/bison.py (actions are matched to generated code through #line), MEMBER_OF_TYPE (which union member owns memory per %type) and callee escape summaries from C16.',
         'technique': 'static ownership typestate over bison actions + must-pass-through (yyerror before YYERROR) + dominance/pairing on setjmp scaffolding + exhaustiveness over return-code summaries (clang CFG facts)',
     },
+    'C14': {
+        'text': 'Decides the structure the digest cache and the range walkers rely on, not digest or statistic values: (R14.1) for every cached hasher the cache namespace is the same literal in lookup and store and private to the function, the key is the pair of original arguments (never written) from which the cursors start, one algorithm\'s init/update/final are used with the standard digest length and fitting buffers, the cached string is the returned string and a hit returns it; (R14.2) for all 8 range walkers of hash.c/math.c, on every path the argument validation (offset < 0, length < 0, offset < base, no block) is rejected before the window, the window is entered only for offset in [base, base+size), its length is min(length, size - data_offset), both cursors advance by it, block bytes are read only at block_data + data_offset (+ i < data_len) through an unsigned byte pointer after a NULL test, and an unreadable block, a gap after the first block of the range and a range meeting no block all end in a return / flag test; (R14.3) string-argument forms hand (c_string, length) of the same sized string to the digest, index below length and convert each byte to uint8_t before use. Digest values, floating-point results and string.to_int parsing are not decided.',
+        'design_ref': 'DESIGN.md section 4, C14 (R14.1-R14.3)',
+        'note': 'Role inference is structural (block variable by type, cursor from `x - block->base`, window from the conditional expression); a walker rewritten beyond that shape is reported as analysis-broken through the instance floor, not as a violation.',
+        'technique': 'static role inference + path-sensitive must-hold guard facts + reader/writer agreement on the digest cache over clang AST/CFG facts',
+    },
     'C12': {
         'text': 'Decides, for every constant-folding grammar action, that the folder applies the same C operator and the same operand-value guards as the VM handler of the opcode the action emits; that no compiler-layer code reads a run-time object value; that externals are looked up in the scanner-owned table; and that shortcut flags are cleared on every path that uses a string otherwise. These are necessary structural clauses of C12, decided on all sites; verdict equality itself is not decided.',
         'design_ref': 'DESIGN.md section 4, C12 (R12.1-R12.6)',
